@@ -277,41 +277,100 @@ def run(ctx, res):
 
 
 def check_carry(res, lib):
-    """T4: converting between a token list and its iterator carries both components unchanged (the pair
-    (raw text, exhausted flag) is what distinguishes `no tokens` from `one empty token`)."""
+    """T4: every function that takes a token list - or anything that wraps one by value (`TokensIter`, `ArgList`,
+    `ArgsIter`, `RawCommand`) - and returns such a value carries the pair (raw text, exhausted flag) unchanged: that pair is
+    what distinguishes `no tokens` from `one empty token`.  Functions that *consume* tokens (iterator `next`, the
+    name / arguments split of `RawCommand::from_tokens`) return an Option and are judged elsewhere (T2, C01.D4)."""
+    adts = lib.adts_n
+    # carriers: adt path -> chain of field names leading to the (tokens, empty) pair
+    carriers = {}
+    for base_t in ('token::Tokens', 'token::TokensIter'):
+        if base_t in adts:
+            carriers[base_t] = ()
+    changed = True
+    while changed:
+        changed = False
+        for p_, a in adts.items():
+            if p_ in carriers or a.get('kind') != 'struct' or len(a['variants']) != 1:
+                continue
+            for fd in a['variants'][0]['fields']:
+                t = fd['ty']
+                if t.get('k') == 'adt' and F.norm_path(t['path']) in carriers:
+                    carriers[p_] = (fd['name'],) + carriers[F.norm_path(t['path'])]
+                    changed = True
+                    break
+    if len(carriers) < 2:
+        raise KeyError("token carriers not found (%s)" % sorted(carriers))
+
     class R:
         def inline_ok(self, I, ci, body):
-            return base.self_adt(body) in ('token::Tokens', 'token::TokensIter')
+            return base.self_adt(body) in carriers
 
         def on_call(self, I, w, ci, args):
             return None
 
     I = Interp([lib], R())
-    cases = []
+
+    def build(adt):
+        chain = carriers[adt]
+        if not chain:
+            return I.make_adt(adt, tokens=('sym', 'raw'), empty=('sym', 'flag'))
+        a = adts[adt]
+        inner_t = [F.norm_path(fd['ty']['path']) for fd in a['variants'][0]['fields'] if fd['name'] == chain[0]][0]
+        return I.make_adt(adt, **{chain[0]: build(inner_t)})
+
+    def pair(v, adt):
+        for _ in range(6):
+            if v[0] != 'adt' or v[1] != adt:
+                return None
+            chain = carriers[adt]
+            if not chain:
+                return v[3][I.field_index(adt, 'tokens')], v[3][I.field_index(adt, 'empty')]
+            a = adts[adt]
+            inner_t = [F.norm_path(fd['ty']['path']) for fd in a['variants'][0]['fields'] if fd['name'] == chain[0]][0]
+            v = v[3][I.field_index(adt, chain[0])]
+            adt = inner_t
+        return None
+
+    def carrier_of(ty):
+        t = ty
+        by_ref = False
+        while t.get('k') == 'ref':
+            t = t['to']
+            by_ref = True
+        if t.get('k') == 'adt' and F.norm_path(t['path']) in carriers:
+            return F.norm_path(t['path']), by_ref
+        return None
+
+    n = 0
     for f in lib.lib_fns():
-        sa = base.self_adt(f)
-        if f.impl_trait is not None or f.kind != 'AssocFn':
+        if f.kind not in ('AssocFn', 'Fn') or f.name == 'next':
             continue
         rt = base.ret_ty(f)
-        rp = F.norm_path(rt.get('path')) if rt.get('k') == 'adt' else None
-        if sa == 'token::TokensIter' and rp == 'token::Tokens' and f.body['arg_count'] == 1:
-            cases.append((f, 'token::TokensIter', 'token::Tokens', True))
-        if sa == 'token::Tokens' and rp == 'token::TokensIter' and f.body['arg_count'] == 1:
-            cases.append((f, 'token::Tokens', 'token::TokensIter', f.body['locals'][1]['ty'].get('k') != 'ref'))
-    if len(cases) < 2:
-        raise KeyError("Tokens <-> TokensIter conversions not found (%d)" % len(cases))
-    for f, src, dst, by_value in cases:
-        v = I.make_adt(src, tokens=('sym', 'raw'), empty=('sym', 'flag'))
-        arg = v if by_value else ('ref', (-1, 0, ()))
-        ex = I.run(f, [arg], None, {(-1, 0): v})
-        ti = I.field_index(dst, 'tokens')
-        ei = I.field_index(dst, 'empty')
+        dst = carrier_of(rt)
+        if dst is None or dst[1]:
+            continue
+        params = [(i, carrier_of(f.body['locals'][i]['ty'])) for i in range(1, f.body['arg_count'] + 1)]
+        cps = [(i, c) for i, c in params if c is not None]
+        if len(cps) != 1:
+            continue
+        idx, (src, by_ref) = cps[0]
+        v = build(src)
+        args = []
+        for i in range(1, f.body['arg_count'] + 1):
+            args.append((('ref', (-1, 0, ())) if by_ref else v) if i == idx else TOP)
+        ex = I.run(f, args, None, {(-1, 0): v})
+        n += 1
         for w, rv in ex:
-            good = rv[0] == 'adt' and rv[1] == dst and rv[3][ti] == ('sym', 'raw') and rv[3][ei] == ('sym', 'flag')
+            got = pair(rv, dst[0])
+            good = got == (('sym', 'raw'), ('sym', 'flag'))
             res.oblige("T4|%s" % f.npath, good, sample="%s carries (raw, flag)" % f.npath, violation=None if good else dict(
                 rule='C07.carry', key="C07|carry|%s" % f.npath,
-                msg="%s does not carry the raw token text and the exhausted flag unchanged (returns %s): `no tokens` and `one empty "
-                    "token` become indistinguishable" % (f.npath, (rv[3] if rv[0] == 'adt' else rv))))
+                msg="%s does not carry the raw token text and the exhausted flag unchanged (it returns %s): `no tokens` and `one empty "
+                    "token` become indistinguishable" % (f.npath, got if got else str(rv)[:120])))
+    if n < 4:
+        raise KeyError("only %d token-carrying conversions found" % n)
+    res.samples.append("T4: %d conversions between %s" % (n, sorted(carriers)))
 
 
 def check_iter(res, lib):
